@@ -110,6 +110,17 @@ def fold_plain(idx: Index, rel, spec, structs, sname):
     it = Interp(m.tree, name=rel)
     it.globals["copy_property"] = ("host", lambda p: p)
     it.globals["copy"] = ModuleRef("copy", attrs={"deepcopy": ("host", _deepcopy), "copy": ("host", _shallow)})
+    # copying a property through cattrs (unstructure to a dict, rebuild with model.Property(**dict)), however the code
+    # gets hold of its converter: the copy keeps every field
+    from .microeval import ClassRef as _CRf
+
+    def _conv(*a, **k):
+        return Record("Converter", {"unstructure": ("host", lambda obj, *a_, **k_: dict(obj.fields) if isinstance(obj, Record) else obj),
+                                    "structure": ("host", lambda obj, cl=None, *a_, **k_: obj)})
+    it.globals["cattrs"] = ModuleRef("cattrs", attrs={"GenConverter": ("host", _conv), "Converter": ("host", _conv)})
+    if "model" not in it.globals or not isinstance(it.globals.get("model"), ModuleRef) or it.globals["model"].interp is None:
+        it.globals["model"] = ModuleRef("model", attrs={
+            "Property": _CRf("Property", call=lambda **kw: Record("Property", dict(kw)))})
     f = it.globals.get("get_all_properties")
     if not isinstance(f, Closure):
         raise AnalysisError(f"{rel}: get_all_properties not found")
